@@ -1,5 +1,5 @@
 (* C07 — what connector close does to the requests queued at that moment. *)
-From AV Require Import Lib.Base Generated.PoolGen Model.Pool Proofs.PoolLimit Proofs.PoolCoh.
+From AV Require Import Lib.Base Generated.PoolGen Model.Pool Proofs.PoolLimit Proofs.PoolCoh Proofs.PoolOwner.
 Open Scope N_scope.
 
 Lemma close_fails_waiters c tr s s' t k :
@@ -15,4 +15,126 @@ Proof.
   repeat split; try reflexivity; [exact E|].
   intro order. cbn [step pcs]. rewrite E. eexists. split; [reflexivity|].
   cbn [with_pc with_waiters pcs]. apply get_set_same.
+Qed.
+
+(* ---- nobody ever queues on a closed connector ----------------------------------------------------- *)
+
+Definition closed_inv (s : state) : Prop := closed s = true -> waiters s = [] /\ idle s = [].
+
+Lemma nil_of_no_member {A} (l : list A) : (forall x, In x l -> False) -> l = [].
+Proof. destruct l as [|x l]; [reflexivity|]. intro H. exfalso. apply (H x). left. reflexivity. Qed.
+
+Lemma proceed_no_idle c s t k :
+  idle s = [] -> waiters (proceed c s t k) = waiters s /\ idle (proceed c s t k) = [] /\
+  get_pc (pcs (proceed c s t k)) t = PCreating k.
+Proof.
+  intro I. unfold proceed. rewrite I. cbn [take_idle with_pc add_slot waiters idle pcs].
+  repeat split; [exact I|apply get_set_same].
+Qed.
+
+Lemma refuse_wait_closed s : closed s = true -> refuse_wait s = true.
+Proof. intro H. unfold refuse_wait. rewrite H, wait_checks_closed_true. reflexivity. Qed.
+
+Lemma step_closed_inv c s e s' : closed_inv s -> step c s e = Some s' -> closed_inv s'.
+Proof.
+  intros I H Hc'. destruct (closed s) eqn:Hc.
+  - unfold closed_inv in I. rewrite Hc in I. destruct (I eq_refl) as (W & D).
+    destruct e as [t k|t order|t|t|t order|t cl order|]; cbn [step] in H.
+    + destruct (get_pc (pcs s) t); try discriminate. rewrite D in H. cbn [take_idle] in H.
+      destruct (connect_must_wait _).
+      * rewrite (refuse_wait_closed s Hc) in H. injection H as <-. split; assumption.
+      * injection H as <-. destruct (proceed_no_idle c s t k D) as (A & B & _). rewrite A. split; assumption.
+    + destruct (get_pc (pcs s) t) as [| k f | | | | |]; try discriminate. destruct f; try discriminate.
+      * set (s1 := with_woken s (filter (fun x => negb (x =? t)) (woken s))) in *.
+        destruct (wait_slot_found _).
+        -- injection H as <-. destruct (proceed_no_idle c s1 t k D) as (A & B & _). rewrite A. split; assumption.
+        -- rewrite (refuse_wait_closed s1 Hc) in H. injection H as <-. split; assumption.
+      * injection H as <-. cbn [with_pc with_waiters waiters idle]. rewrite W. split; [reflexivity|exact D].
+      * destruct (release_waiter c _ order) as [s2|] eqn:Er; [|discriminate]. injection H as <-.
+        destruct (release_waiter_facts _ _ _ _ Er) as (F1 & _).
+        unfold release_waiter in Er. destruct (covers order _); [|discriminate]. injection Er as <-.
+        cbn [with_pc waiters idle]. split.
+        -- apply nil_of_no_member. intros x Hx. apply release_loop_waiters_sub in Hx.
+           cbn [with_woken waiters] in Hx. rewrite W in Hx. exact Hx.
+        -- match goal with |- idle (release_loop c ?x order) = [] =>
+             destruct (release_loop_frame c order x) as (_ & _ & I' & _); rewrite I' end. exact D.
+    + destruct (get_pc (pcs s) t) as [| k f | | | | |]; try discriminate.
+      destruct f; try discriminate; injection H as <-; cbn [with_pc with_waiters waiters idle].
+      * rewrite W. split; [reflexivity|exact D].
+      * split; assumption.
+    + destruct (get_pc (pcs s) t); try discriminate. rewrite Hc in H. injection H as <-. split; assumption.
+    + destruct (get_pc (pcs s) t); try discriminate. unfold release_acquired in H. rewrite Hc in H.
+      injection H as <-. split; assumption.
+    + destruct (get_pc (pcs s) t) as [| | | k cn | | |]; try discriminate. rewrite Hc in H. injection H as <-.
+      split; assumption.
+    + rewrite Hc in H. injection H as <-. split; assumption.
+  - (* the connector was open: only EClose can make it closed *)
+    destruct e as [t k|t order|t|t|t order|t cl order|]; cbn [step] in H;
+      try (pose proof (step_closed c s _ s') as X).
+    + exfalso. destruct (get_pc (pcs s) t); try discriminate.
+      destruct (take_idle k (idle s)); [injection H as <-; rewrite proceed_closed in Hc'; congruence|].
+      destruct (connect_must_wait _); [|injection H as <-; rewrite proceed_closed in Hc'; congruence].
+      destruct (refuse_wait s); injection H as <-; cbn in Hc'; congruence.
+    + exfalso. destruct (get_pc (pcs s) t) as [| k f | | | | |]; try discriminate. destruct f; try discriminate.
+      * destruct (wait_slot_found _); [injection H as <-; rewrite proceed_closed in Hc'; cbn in Hc'; congruence|].
+        destruct (refuse_wait _); injection H as <-; cbn in Hc'; congruence.
+      * injection H as <-. cbn in Hc'. congruence.
+      * destruct (release_waiter c _ order) as [s2|] eqn:Er; [|discriminate]. injection H as <-.
+        apply release_waiter_closed in Er. cbn [with_pc closed with_woken] in *. congruence.
+    + exfalso. destruct (get_pc (pcs s) t) as [| k f | | | | |]; try discriminate.
+      destruct f; try discriminate; injection H as <-; cbn in Hc'; congruence.
+    + exfalso. destruct (get_pc (pcs s) t); try discriminate. rewrite Hc in H. injection H as <-. cbn in Hc'. congruence.
+    + exfalso. destruct (get_pc (pcs s) t); try discriminate.
+      destruct (release_acquired c s (SPh t) order) as [s1|] eqn:Er; [|discriminate]. injection H as <-.
+      apply release_acquired_closed in Er. cbn [with_pc closed] in Hc'. congruence.
+    + exfalso. destruct (get_pc (pcs s) t) as [| | | k cn | | |]; try discriminate. rewrite Hc in H.
+      destruct (release_acquired c s (SConn cn) order) as [s1|] eqn:Er; [|discriminate]. injection H as <-.
+      apply release_acquired_closed in Er. destruct (force_close c || cl); cbn in Hc'; congruence.
+    + rewrite Hc in H. injection H as <-. split; reflexivity.
+Qed.
+
+Lemma closed_inv_init : closed_inv init.
+Proof. intro H. discriminate. Qed.
+
+Lemma run_closed_inv c : forall tr s s', closed_inv s -> run c s tr = Some s' -> closed_inv s'.
+Proof.
+  induction tr as [|e r IH]; intros s s' I H; cbn [run] in H.
+  - injection H as <-. exact I.
+  - destruct (step c s e) as [s1|] eqn:Es; [|discriminate]. eapply IH; [|exact H]. eapply step_closed_inv; eauto.
+Qed.
+
+(* After close nobody is queued, in any trace: no request can queue (again) on a closed connector. *)
+Lemma close_no_waiter c tr s :
+  run c init tr = Some s -> closed s = true -> waiters s = [] /\ idle s = [].
+Proof. intros H Hc. exact (run_closed_inv c tr init s closed_inv_init H Hc). Qed.
+
+(* A request that had already been woken when the connector closed fails when it runs: either at once
+   (no capacity: the closed connector refuses to queue it) or after its connection attempt, whose
+   outcome on a closed connector is always failure (a connection that does arrive is closed). *)
+Lemma woken_fails_after_close c tr s t k :
+  run c init tr = Some s -> closed s = true -> get_pc (pcs s) t = PWaiting k FWoken ->
+  forall order, exists s',
+    step c s (EResume t order) = Some s' /\ closed s' = true /\
+    (get_pc (pcs s') t = PFailed \/ get_pc (pcs s') t = PCreating k).
+Proof.
+  intros H Hc Ep order. destruct (close_no_waiter c tr s H Hc) as (_ & D).
+  cbn [step]. rewrite Ep.
+  set (s1 := with_woken s (filter (fun x => negb (x =? t)) (woken s))).
+  destruct (wait_slot_found (avail c s1 k)).
+  - eexists. split; [reflexivity|]. destruct (proceed_no_idle c s1 t k D) as (_ & _ & P).
+    split; [rewrite proceed_closed; exact Hc|right; exact P].
+  - rewrite (refuse_wait_closed s1 Hc). eexists. split; [reflexivity|]. split; [exact Hc|left].
+    cbn [with_pc pcs]. apply get_set_same.
+Qed.
+
+Lemma creating_fails_after_close c s t k :
+  closed s = true -> get_pc (pcs s) t = PCreating k ->
+  (exists s', step c s (ECreateOk t) = Some s' /\ get_pc (pcs s') t = PFailed /\ In (nconn s) (closedc s')) /\
+  (forall order, exists s', step c s (ECreateFail t order) = Some s' /\ get_pc (pcs s') t = PFailed).
+Proof.
+  intros Hc Ep. split.
+  - cbn [step]. rewrite Ep, Hc. eexists. split; [reflexivity|]. cbn [with_pc with_closedc bump_conn pcs closedc].
+    split; [apply get_set_same|left; reflexivity].
+  - intro order. cbn [step]. rewrite Ep. unfold release_acquired. rewrite Hc. eexists. split; [reflexivity|].
+    cbn [with_pc pcs]. apply get_set_same.
 Qed.
